@@ -31,7 +31,7 @@
 
 import datetime, fnmatch, re, struct, sys
 from array import array
-from decimal import Decimal, InvalidOperation
+from decimal import Decimal, DecimalException
 
 from whoosh import analysis, columns, formats
 from whoosh.compat import with_metaclass
@@ -694,7 +694,8 @@ class NUMERIC(FieldType):
         if dc and isinstance(x, (string_type, Decimal)):
             try:
                 x = Decimal(x) * (10 ** dc)
-            except InvalidOperation:
+            except DecimalException:
+                # InvalidOperation (not a number) or Overflow (1e999999999)
                 raise ValueError("%r is not a valid number" % (x,))
         elif isinstance(x, Decimal):
             raise TypeError("Can't index a Decimal object unless you specified "
